@@ -186,6 +186,13 @@ def simulated_ambient(clock: SimClock):
         clock.entropy_draws["numpy"] += 1
         return er.getrandbits(k)
 
+    # dask.array.random keeps one process-global, entropy-seeded RandomState per backend (used by SparsePCA's
+    # unseeded dask.array.random.standard_normal): a run must not inherit the draws of earlier runs
+    try:
+        import dask.array.random as _dar
+        _dar._cached_states.clear()
+    except Exception:
+        pass
     saved.append((_uuid, "uuid4", _uuid.uuid4))
     saved.append((_uuid, "uuid1", _uuid.uuid1))
     saved.append((_bg, "randbits", _bg.randbits))
@@ -197,6 +204,10 @@ def simulated_ambient(clock: SimClock):
     finally:
         for mod, attr, val in saved:
             setattr(mod, attr, val)
+        try:
+            _dar._cached_states.clear()
+        except Exception:
+            pass
 
 
 def ambient_event(seed: int, label: str, clock: SimClock | None):
